@@ -7,9 +7,15 @@
 //! constructors/methods/statics, own/borrow, `use` chains and diamonds with renames, worlds with named / inline /
 //! path imports and exports and `include ... with`) is rendered twice: as WIT text and as a WAC document.
 //!
-//! case line (tab separated):  kind  id  wac-source  wit-source  meta
+//! case line (tab separated):  kind  id  wac-source  wit-source  meta  [dep-source]
 //!   kind = pkg (both renderings, reference comparison) | neg (WAC only: error classes / panics)
 //!   sources: comma separated code points ("-" = empty)
+//!   dep-source: WIT text of a second, versioned package the main package refers to by path (`use dep:lib/i@1.2.0.{t}`,
+//!         `import dep:lib/i@1.2.0;`); the reference gets it through `Resolve::push_str`, wac as the reference's binary
+//!         encoding in the `packages` map of `Document::resolve`, the model as source text (driver/c05.ml)
+//!   In WAC renderings some references into the package itself are written as full package paths (`use x:y/a@1.2.0.{t}`,
+//!   `import x:y/a@1.2.0;`, `include x:y/w@1.2.0`); the reference toolchain rejects those ("package depends on itself"), so
+//!   the WIT rendering keeps the plain name.
 //!   meta: `;`-separated records  W|<world>|<explicit import names ,>|<explicit export names ,>|<strict 0/1>
 //!         and F|<feature> (shape features used for the signatures of known findings)
 //! impl line (tab separated):
@@ -19,6 +25,10 @@
 //!      `REF-OK <interfaces> <worlds>` | `REF-DIFF <where>: <what>` | `REF-SKIP <why>` | `-`
 //!   3. validator verdict (both binaries nested in one component, wasmparser's own component subtyping):
 //!      `WP-OK <n>` | `WP-DIFF <where>: <what>` | `WP-SKIP <why>` | `-`
+//!      interfaces: mutual; worlds: wac <= reference always, reference <= wac when no implicit interface import carries
+//!      functions (wac trims implicit imports to the used types; meta strict=1); skipped when the reference satisfies a
+//!      dependency of an export from another export of the world (meta strict=2)
+//!   4. shape features of the document (signatures of known findings), computed from the AST and the resolved types
 use std::collections::{BTreeMap, BTreeSet, HashSet};
 use std::io::Write;
 use std::panic::{catch_unwind, AssertUnwindSafe};
